@@ -64,7 +64,7 @@ def gen(rng) -> dict:
 
 def gen_exchange(rng) -> dict:
     c = rng.random()
-    st = rng.choice([200, 200, 200, 204, 304, 404, 500, 103])
+    st = rng.choice([200, 200, 200, 204, 304, 404, 500, 103, 205])
     ex = {"k": "resp", "status": st, "body": {"tag": rng.choice([1, 2, 30])}}
     if c < 0.55:
         ex["framing"] = rng.choice(["cl", "chunked"])
@@ -88,6 +88,11 @@ def gen_exchange(rng) -> dict:
             # response early, only the connection's own bookkeeping keeps that tail from answering the next request
             ex["body"] = {"tag": ex["body"]["tag"], "embed": True}
             ex["split_embed"] = rng.choice([0.5, 3.0])
+            if rng.random() < 0.4:
+                # nothing of the body has arrived when the header block has: the body *is* the embedded message
+                ex["body"] = {"tag": 0, "embed": True}
+                del ex["split_embed"]
+                ex["split_head"] = rng.choice([0.5, 3.0])
         if st == 103:
             # an interim response followed by the final one on the same connection
             ex["stray"] = FORGED
@@ -236,7 +241,7 @@ def run(sc: dict) -> Result:
             res.probes["dirty_checkout_discarded"] += 1
         if any((ex.get("stray") or "").find("X-Forged") >= 0 for ex in sc["exchanges"][: len(w.requests)]):
             res.probes["forged_offered"] += 1
-        if any(ex.get("split_embed") is not None for ex in sc["exchanges"][: len(w.requests)]) and any(o["op"] == "dispose" and o["how"] in ("read_k_release", "release_unread", "stream_part_release") for o in sc["ops"]):
+        if any(ex.get("split_embed") is not None or ex.get("split_head") is not None for ex in sc["exchanges"][: len(w.requests)]) and any(o["op"] == "dispose" and o["how"] in ("read_k_release", "release_unread", "stream_part_release") for o in sc["ops"]):
             res.probes["embedded_tail_in_flight_after_early_release"] += 1
         if cfg["path"] == "direct_tls" and len(sids) != len(set(sids)):
             res.probes["tls_connection_reused"] += 1
@@ -268,7 +273,7 @@ def shrinks(sc):
         del c["exchanges"][i]
         yield c
     for i, ex in enumerate(sc["exchanges"]):
-        for fld in ("stray", "split", "split_embed", "end", "interim", "keepalive", "cut", "chunks", "stray_delay", "close_delay"):
+        for fld in ("stray", "split", "split_embed", "split_head", "end", "interim", "keepalive", "cut", "chunks", "stray_delay", "close_delay"):
             if fld in ex:
                 c = copy.deepcopy(sc)
                 del c["exchanges"][i][fld]
